@@ -322,6 +322,42 @@ func foreignTwins() []*Source {
 	return []*Source{mk("team.one", "team.two"), mk("team.two", "team.one")}
 }
 
+// sharedSources: 48 generated multi-file models, the same in every process of a run; those
+// with a depth limit and several paths to one file come first (where an algorithm chosen by
+// the number of processors would show).
+func sharedSources(seed uint64) []*Source {
+	app := func(i int, imports ...string) string {
+		var b strings.Builder
+		for _, im := range imports {
+			b.WriteString("import " + im + "\n")
+		}
+		fmt.Fprintf(&b, "\nF%d:\n    !type T%d:\n        x <: int\n", i, i)
+		return b.String()
+	}
+	mk := func(depth int, files map[string]string) *Source {
+		return &Source{Name: "f0.sysl", Files: files, Depth: depth}
+	}
+	var out []*Source
+	for _, d := range []int{2, 3, 4, 5} {
+		// a file reached by a long path that comes first in the text and by a short one
+		out = append(out,
+			mk(d, map[string]string{"f0.sysl": app(0, "f1", "f3"), "f1.sysl": app(1, "f3"), "f3.sysl": app(3, "f4"), "f4.sysl": app(4)}),
+			mk(d, map[string]string{"f0.sysl": app(0, "f1", "f5"), "f1.sysl": app(1, "f2"), "f2.sysl": app(2, "f3"), "f3.sysl": app(3, "f4"), "f4.sysl": app(4, "f6"),
+				"f5.sysl": app(5, "f3"), "f6.sysl": app(6)}),
+			mk(d, map[string]string{"f0.sysl": app(0, "d/f1", "d/f2"), "d/f1.sysl": app(1, "f2", "../f0"), "d/f2.sysl": app(2, "e/f3"), "d/e/f3.sysl": app(3, "/d/f1", "f4"), "d/e/f4.sysl": app(4)}))
+	}
+	var limited, plain []*Source
+	for k := 0; k < 3000 && len(limited) < 20; k++ {
+		src := generated(core.Derive(seed, "C07", "same-in-every-process", fmt.Sprint(k)), false)
+		if src.Depth > 0 && len(src.Files) >= 4 {
+			limited = append(limited, src)
+		} else if len(plain) < 16 {
+			plain = append(plain, src)
+		}
+	}
+	return append(append(out, limited...), plain...)
+}
+
 // swaggerCrowd: models that import Swagger documents whose definitions refer to each
 // other (three mutually: converts; four mutually: the converter gives up, every time),
 // next to the twins.
@@ -615,6 +651,20 @@ func worker(t *testing.T, c core.Cfg) {
 			_ = core.WriteJSON(c.PartPath(c.Worker), part)
 		}
 	}()
+	if !race {
+		// the same generated sources in every worker process, compiled alone: the master
+		// compares the results across the processes, which run with 1, 4 and 16 processors
+		// (a compilation must not choose its algorithm by the number of processors)
+		part.Digests = map[string]uint64{}
+		for k, src := range sharedSources(c.Seed) {
+			res := compile(src)
+			if strings.HasPrefix(res, "ERROR") {
+				res = "ERROR" // which of several errors is reported may depend on timing; that it fails may not
+			}
+			part.Digests[fmt.Sprint(k)] = core.HashStrings(res)
+		}
+		part.Counters.Add("sources_compiled_in_every_process", int64(len(part.Digests)))
+	}
 	twinsDone := race || c.Worker != 0
 	swaggerDone := !(race && c.Worker == 1%nw)
 	crowdDone := !(c.Worker == 1 && !race) && !(race && c.Worker == 0 && c.Tier == "thorough")
@@ -1015,6 +1065,24 @@ func master(c core.Cfg) int {
 		<-done
 	}
 	m := core.Merge(append(append(append(pa, pb...), pc...), pd...))
+	// the shared sources: every interleave worker must have the same result for each
+	for k := 0; k < len(sharedSources(c.Seed)); k++ {
+		key := fmt.Sprint(k)
+		for _, p := range pa[1:] {
+			if len(pa[0].Digests) == 0 || len(p.Digests) == 0 || p.Digests[key] == pa[0].Digests[key] {
+				continue
+			}
+			src := sharedSources(c.Seed)[k]
+			rp := filepath.Join(core.ReplayDir(), fmt.Sprintf("C07-gomaxprocs-%d-%s.json", c.Seed, key))
+			_ = core.WriteJSON(rp, map[string]interface{}{"property": "C07", "engine": "compilesim", "class": "result-depends-on-process",
+				"note": fmt.Sprintf("compiled alone, this source gives different results in worker %d (GOMAXPROCS %d) and worker %d (GOMAXPROCS %d); re-run the check with the same VERIF_SEED", pa[0].Worker, pa[0].GoMaxProcs, p.Worker, p.GoMaxProcs),
+				"source": src})
+			m.Violations = append(m.Violations, core.ViolationRec{Class: "result-depends-on-process", Replay: rp,
+				Detail: fmt.Sprintf("source %s (max depth %d) compiled alone gives different results in two worker processes (GOMAXPROCS %d and %d)", src.Name, src.Depth, pa[0].GoMaxProcs, p.GoMaxProcs)})
+			k = 1 << 20
+			break
+		}
+	}
 	ma, mb, mc := core.Merge(pa), core.Merge(pb), core.Merge(pc)
 	// race reports
 	logs, _ := filepath.Glob(filepath.Join(c.OutDir, "race-*"))
